@@ -24,6 +24,7 @@ def handle (line : String) : String :=
   | "lint" :: rest => Asl.Drv.Lint.handle rest
   | "join" :: rest => Asl.Drv.Join.handle rest
   | "tasks" :: rest => Asl.Drv.Tasks.handle rest
+  | "fanproto" :: rest => Asl.Drv.Fanproto.handle rest
   | "echo" :: [j] => match rd j with
     | some v => "ok\t" ++ js v
     | none => "unsupported"
